@@ -561,34 +561,35 @@ Proof.
   destruct p; cbn [nth]; [lia | apply IH; lia].
 Qed.
 
-Theorem accumulate_at_spec (a : list Z -> A) s axis idx :
-  0 <= axis < zlen s -> inb idx s ->
-  accumulate_at f a axis idx = accumulate_spec f a (zlen s) axis idx.
+Lemma accumulate_slices_spec (a : list Z -> A) s ax idx :
+  0 <= ax < zlen s -> inb idx s ->
+  reducer f (flat_slice a (accumulate_slices ax idx 0)) None
+  = fold_spec f (map (fun k => a (set_at idx (Z.to_nat ax) k)) (zrange (nth (Z.to_nat ax) idx 0 + 1))) None.
 Proof.
   intros Ha Hi. pose proof (inb_length _ _ Hi) as Hl. unfold zlen in *.
-  unfold accumulate_at, accumulate_spec.
-  assert (En : np_norm (Z.of_nat (length s)) axis = axis) by (unfold np_norm; destruct (Z.ltb_spec axis 0); lia).
-  rewrite En. set (p := Z.to_nat axis).
+  set (p := Z.to_nat ax).
   assert (Hp : (p < length idx)%nat) by lia.
   assert (Hv : 1 <= nth p idx 0 + 1) by (pose proof (inb_nth_nonneg _ _ Hi p Hp); lia).
-  rewrite (acc_slices_onehot axis idx 0 p Hp) by lia.
+  rewrite (acc_slices_onehot ax idx 0 p Hp) by lia.
   rewrite (flat_slice_spec A a _ _ _ (wf_onehot idx p _ Hp Hv)).
   unfold spec_elems. rewrite reduced_extents_onehot by assumption.
   rewrite lex_enum_1, map_map, reducer_fold_spec. f_equal.
   apply map_ext. intros x. now rewrite merge_onehot.
 Qed.
 
-End Fold2.
-
-(* ---------- J. accumulate does not normalise a negative axis ---------- *)
-Theorem accumulate_negative_axis_refuted :
-  exists (s : list Z) (a : list Z -> Z) axis idx,
-    pos s /\ - zlen s <= axis < 0 /\ inb idx s /\
-    accumulate_at Z.add a axis idx <> accumulate_spec Z.add a (zlen s) axis idx.
+(* any valid axis, either sign: wrap_axis is NumPy's normalisation on [-ndim, ndim) *)
+Theorem accumulate_at_spec (a : list Z -> A) s axis idx :
+  - zlen s <= axis < zlen s -> inb idx s ->
+  accumulate_at f a (zlen s) axis idx = accumulate_spec f a (zlen s) axis idx.
 Proof.
-  exists [2], (fun _ => 1), (-1), [1]. split; [repeat constructor; lia|].
-  split; [cbn; lia|]. split; [repeat constructor; lia|]. vm_compute. discriminate.
+  intros Ha Hi. unfold accumulate_at, accumulate_spec.
+  assert (E : wrap_axis axis (zlen s) = np_norm (zlen s) axis)
+    by (unfold wrap_axis, np_norm; destruct (axis <? 0); lia).
+  rewrite E. apply (accumulate_slices_spec a s); [|assumption].
+  unfold np_norm. destruct (Z.ltb_spec axis 0); lia.
 Qed.
+
+End Fold2.
 
 (* ---------- K. mean's divisor is the number of folded elements ---------- *)
 
